@@ -125,6 +125,10 @@ def fault_sets(recipe, rng, npairs):
     for ci in livec:
         rc, f = mrecipe.close_cycle(recipe, ci)
         out.append((rc, [f]))
+        three = mrecipe.close_cycle3(recipe, ci)
+        if three is not None:
+            out.append((three[0], [dict(three[1], kind="close-cycle",
+                                        length=3)]))
     if singles:
         for _ in range(npairs):
             f1 = rng.choice(singles)
@@ -175,7 +179,9 @@ def run_stream(task):
             acc.pairs.add(key)
             if not model["well_formed"]:
                 acc.nontrivial_pairs.add(key)
-            kinds = "+".join(sorted(f["kind"] for f in faults)) or "none"
+            kinds = "+".join(sorted(
+                f["kind"] + ("-3" if f.get("length") == 3 else "")
+                for f in faults)) or "none"
             acc.extra[f"fault:{kinds if len(faults) < 2 else 'pair'}"] += 1
             for f in faults:
                 acc.extra[f"injected:{f['kind']}"] += 1
